@@ -10,6 +10,7 @@ std::string handle(const std::string& op, const Args& a) {
     if (op != "slice") return "unknown-op";
     auto enc = get(a, "enc"); auto level = get(a, "level");
     auto src = nats(a, "shape"); auto es = parse_slices(get(a, "sl"));
+    uvec at_v; if (has(a, "at")) { at_v = nats(a, "at"); at_arg() = &at_v; } else at_arg() = nullptr;
     if (enc != "packed" || es.size() != 1) return "bad-args";
     const Entry& e = es[0];
     switch (e.kind) {
